@@ -2,7 +2,7 @@
  * @props C01 C04 C05
  * @tier quick
  * @functions ZSTD_seqToCodes ZSTD_LLcode ZSTD_MLcode FSE_buildCTable_wksp ZSTD_encodeSequences BIT_initCStream BIT_addBits BIT_flushBits BIT_closeCStream BIT_initDStream ZSTD_initFseState ZSTD_decodeSequence BIT_reloadDStream BIT_endOfDStream
- * @bounds K sequences (1 quick, 2 thorough) with EVERY field arbitrary: literal length and match length over their full 16-bit store range, offset code 1..2^29-1 (everything the predefined offset table can carry), encoded with the three predefined distributions and decoded with the decoder's hard-coded default tables
+ * @bounds K = 1 sequence (K = 2 gave no verdict within 40 min and is not registered) with EVERY field arbitrary: literal length and match length over their full 16-bit store range, offset code 1..2^29-1 (everything the predefined offset table can carry), encoded with the three predefined distributions and decoded with the decoder's hard-coded default tables
  * @assume output buffer 64 bytes inside an arena with 64 bytes of front slack (the bit reader compares pointers slightly before the start of its buffer)
  * @outside long-length markers (> 65535), compressed / RLE table modes (c01.seq_section, thorough), offsets >= 2^29 (long-offset path of 32-bit builds)
  * @prep extract lib/compress/zstd_compress.c ZSTD_seqToCodes seq_to_codes.inc
@@ -12,7 +12,6 @@
  * @timeout 600
  * @memgb 8
  * @instance k1 -DK=1
- * @instance k2 tier=thorough timeout=2400 memgb=14 -DK=2
  */
 #include "v.h"
 #include <string.h>
